@@ -149,11 +149,15 @@ class PhaseRetarder(JonesMatrixOpticalElement):
             j21 = (phi_plus - phi_minus) * np.exp(1j * circularity) * np.cos(fast_axis_orientation) * np.sin(fast_axis_orientation)
             j22 = phi_plus * np.sin(fast_axis_orientation)**2 + phi_minus * np.cos(fast_axis_orientation)**2
 
-            # constructing the Jones matrix.
-            jones_matrix = np.array([[j11, j12], [j21, j22]])
+            # constructing the Jones matrix; the parameters may be any mix of scalars and Fields.
+            components = [j11, j12, j21, j22]
+            grids = [j.grid for j in components if hasattr(j, 'grid')]
 
-            if hasattr(j11, 'grid'):
-                jones_matrix = Field(jones_matrix, j11.grid)
+            jones_matrix = np.array(np.broadcast_arrays(*components))
+            jones_matrix = jones_matrix.reshape((2, 2) + jones_matrix.shape[1:])
+
+            if grids:
+                jones_matrix = Field(jones_matrix, grids[0])
 
             return jones_matrix
 
@@ -283,7 +287,12 @@ class LinearPolarizer(JonesMatrixOpticalElement):
             c = np.cos(angle)
             s = np.sin(angle)
 
-            return np.array([[c**2, c * s], [c * s, s**2]])
+            jones_matrix = np.array([[c**2, c * s], [c * s, s**2]])
+
+            if hasattr(c, 'grid'):
+                jones_matrix = Field(jones_matrix, c.grid)
+
+            return jones_matrix
 
         return self.construct_function(jones, self.polarization_angle)
 
